@@ -150,6 +150,13 @@ func spread(id int64) int64 {
 
 // valuesOf materialises the typed value slice (with `extra` spare elements of
 // capacity behind len, filled with sentinels, for the C20 monitors).
+// shortValues / lastValueArena: side channel between valuesOf and the C20
+// build scenario (which snapshots the whole record buffer).
+var (
+	shortValues    bool
+	lastValueArena []byte
+)
+
 func valuesOf(kind string, ids []int64, extra int) interface{} {
 	if ids == nil {
 		return nil
@@ -243,11 +250,29 @@ func valuesOf(kind string, ids []int64, extra int) interface{} {
 		}
 		return v[:n]
 	case "bytes3", "bytes64", "bytes1k":
+		// All values are cut out of ONE caller-owned record buffer (the way a
+		// caller slicing values out of a block it read would do), separated by
+		// 4 sentinel bytes; every element's capacity therefore reaches into its
+		// neighbours. With shortValues a few elements are SHORTER than the
+		// encoder's size (an encoder that "pads" or "normalises" such a value
+		// in place writes into caller memory behind len).
 		sz := bytesSize(kind)
 		v := make([][]byte, n+extra)
+		arena := make([]byte, (n+extra)*(sz+4))
+		for i := range arena {
+			arena[i] = 0xA7
+		}
 		for i := range v {
 			x := uint64(spread(id(i)))
-			b := make([]byte, sz)
+			l := sz
+			if shortValues && id(i)%11 == 4 && sz > 1 {
+				l = sz - 1 - int(id(i)%int64(sz-1))%3
+				if l < 1 {
+					l = 1
+				}
+			}
+			off := i * (sz + 4)
+			b := arena[off : off+l]
 			for j := range b {
 				// cheap injective-enough filler derived from the id
 				x = x*6364136223846793005 + 1442695040888963407
@@ -255,6 +280,7 @@ func valuesOf(kind string, ids []int64, extra int) interface{} {
 			}
 			v[i] = b
 		}
+		lastValueArena = arena
 		return v[:n]
 	case "structle", "structbe":
 		v := make([]pairLE, n+extra)
